@@ -81,7 +81,7 @@ theorem merge_preserves (shards : List Shard) (hne : shards ≠ []) (hrep : ∀ 
       rw [List.any_eq_true] at h
       obtain ⟨sh, hs, he⟩ := h
       exact hrep sh hs (by simpa using he)
-    simp [h1, h2, hm]
+    simp [h1, h2, hm, realign_flatten b' hoki]
   · rw [flat_flatten b' hbi, hfl]; simp [bflat]
   · simpa [Builder.flatten] using hrepos
 
@@ -112,6 +112,15 @@ theorem merge_drops_tombstoned (shards : List Shard) (out : Shard) (hne : shards
     · cases hd; simp_all
   · cases hd
 
+theorem explode_of_loop (sh : Shard) (outs : List Shard) (he : explodeLoop sh sh.docs none none [] = some outs)
+    (hg : ∀ o ∈ outs, GoodOut o) : explode sh = some outs := by
+  unfold explode
+  rw [he]
+  simp only [Option.map_some]
+  congr 1
+  rw [List.map_congr_left (g := id) (fun o ho => (hg o ho).2.2)]
+  simp
+
 /-- **C16, explode** (for any shard satisfying the hypotheses `WF`, in particular every output of merge): a well-formed compound shard explodes into shards that hold one repository each, are grouped and
     without tombstones, and together show exactly what the compound shard showed, in order -/
 theorem explode_preserves_wf (sh : Shard) (w : WF sh) :
@@ -119,12 +128,13 @@ theorem explode_preserves_wf (sh : Shard) (w : WF sh) :
       ∀ o ∈ outs, outShardOk o = true ∧ o.repos.length = 1 := by
   obtain ⟨outs, he, hfl, hgood⟩ := explodeLoop_spec sh sh.docs none none [] w.docs w.mono
     (by intro l hl; cases hl) (Or.inl ⟨rfl, rfl⟩)
-  refine ⟨outs, he, ?_, ?_⟩
-  · rw [hfl, flat_eq]; simp [curFlat]
-  · intro o ho
+  have hg : ∀ o ∈ outs, GoodOut o := by
+    intro o ho
     rcases hgood.1 o ho with h | h
     · cases h
     · exact h
+  refine ⟨outs, explode_of_loop sh outs he hg, ?_, fun o ho => ⟨(hg o ho).1, (hg o ho).2.1⟩⟩
+  rw [hfl, flat_eq]; simp [curFlat]
 
 theorem explode_preserves (sh : Shard) (hwf : wfB sh = true) :
     ∃ outs, explode sh = some outs ∧ outs.flatMap flat = flat sh ∧
@@ -199,12 +209,13 @@ theorem C16_checkExplode (sh : Shard) (hwf : wfB sh = true) :
   have w := wfB_sound sh hwf
   obtain ⟨outs, he, hfl, hgood, hrep⟩ := explodeLoop_spec sh sh.docs none none [] w.docs w.mono
     (by intro l hl; cases hl) (Or.inl ⟨rfl, rfl⟩)
-  refine ⟨outs, he, ?_⟩
-  have hg : ∀ o ∈ outs, outShardOk o = true ∧ o.repos.length = 1 := by
+  have hg' : ∀ o ∈ outs, GoodOut o := by
     intro o ho
     rcases hgood o ho with h | h
     · cases h
     · exact h
+  refine ⟨outs, explode_of_loop sh outs he hg', ?_⟩
+  have hg : ∀ o ∈ outs, outShardOk o = true ∧ o.repos.length = 1 := fun o ho => ⟨(hg' o ho).1, (hg' o ho).2.1⟩
   have hrepos : outs.flatMap liveRepos = liveRepos sh := by
     rw [← started_eq_liveRepos sh w]
     have : outs.flatMap liveRepos = outs.flatMap (·.repos) :=
